@@ -1,6 +1,6 @@
 """C01 — attack-graph edges are exactly the MAL meaning of the step expressions."""
 from __future__ import annotations
-import json, random
+import copy, json, random
 from ..common import Result, Violation, run_driver, canon_hash
 from ..langgen import LangGen, chain_language, gen_model, lang_payload, inst_payload
 from ..genrun import impl_generate, Ref
@@ -32,6 +32,28 @@ def edge_sets(obs):
     ch = {(byid[a], byid[b]) for a, b in obs['edges']}
     pa = {(byid[a], byid[b]) for a, b in obs['parent_edges']} if 'parent_edges' in obs else ch
     return ch, pa
+
+def nonterminating(spec, inst, res):
+    """a case the real generator did not finish in time.  Slow is not wrong (python_jsonschema_objects compares
+    structurally and the evaluator multiplies duplicates: exponential on some language / model pairs), but the property
+    promises termination on every finite model: the same language over the sub-models of at most 1, 2 and 3 assets (every
+    link among them kept, so self-links and short cycles stay) is tiny work for the unchanged generator; a generator
+    that does not finish one of those within 10 s is reported."""
+    from ..common import time_limit, CaseTimeout
+    for k in (1, 2, 3):
+        for start in range(0, max(1, len(inst['assets']) - k + 1)):
+            keep = {a['id'] for a in inst['assets'][start:start + k]}
+            small = {'assets': [a for a in inst['assets'] if a['id'] in keep],
+                     'links': [dict(l, left=[x for x in l['left'] if x in keep], right=[x for x in l['right'] if x in keep]) for l in inst['links']]}
+            small['links'] = [l for l in small['links'] if l['left'] and l['right']]
+            res.bump('termination re-checked on a sub-model of at most 3 assets')
+            try:
+                with time_limit(10):
+                    impl_generate(spec, copy.deepcopy(small))
+            except CaseTimeout:
+                return Violation(what=f'attack-graph generation does not finish within 10 s on a model of {len(small["assets"])} assets and {len(small["links"])} links',
+                                 fingerprint='C01:no-termination', replay={'spec': spec, 'inst': small, 'churn_seed': None})
+    return None
 
 def check_case(spec, inst, mo, res: Result, churn_seed=None):
     """returns a Violation or None"""
@@ -122,7 +144,10 @@ def run(seed, tier, lean) -> Result:
         if cs is not None: res.bump('churned_models')
         from ..common import guarded
         done, v = guarded(res, check_case, spec, inst, mo, res, churn_seed=cs)
-        if not done: continue
+        if not done:
+            v = nonterminating(spec, inst, res)
+            if v: res.violations.append(v); break
+            continue
         ops = set()
         for e in all_exprs(spec): expr_ops(e, ops)
         for o in ops: res.bump('op:' + o)
@@ -149,6 +174,11 @@ def run(seed, tier, lean) -> Result:
 
 def replay(path):
     r = json.load(open(path))
-    v = check_case(r['spec'], r['inst'], None, Result(), churn_seed=r.get('churn_seed'))
+    from ..common import time_limit, CaseTimeout
+    try:
+        with time_limit(60):
+            v = check_case(r['spec'], r['inst'], None, Result(), churn_seed=r.get('churn_seed'))
+    except CaseTimeout:
+        print('generation did not finish within 60 s'); print('VIOLATION reproduced'); return 1
     print(v.what if v else 'no violation'); print('VIOLATION reproduced' if v else 'not reproduced')
     return 1 if v else 0
